@@ -12,7 +12,8 @@
   request `nvar` from the structured parser and checks on every request that the old one agrees.
 
   The model follows the code as repaired by fixes/C05-assemble-nvar-overlap.diff (entries overlapping the
-  GUID store are an error, not a `make` of a negative length).
+  GUID store are an error, not a `make` of a negative length) and by wp-nvfix (round 3: NewNVarStore refuses
+  `FreeSpaceOffset > GUIDStoreOffset` after an entry; no nested store behind an extended header).
 -/
 import FianoModel.Uefi.TotalNvar
 import FianoModel.Uefi.TotalAsmBase
@@ -104,10 +105,12 @@ def newNvarT (pol : UInt8) : Nat → Bytes → Nat → NvS → GoM (Option (NvNo
     let okExt ← parseExtHeaderG vbuf size attrs
     if ¬ okExt then pure (some (.mk { e1 with type := 0 } none [] none, s.guids)) else
     let id ← nvIdentT s vbuf attrs e1 offset
-    let content ← sliceFromG "newNVar: v.buf[v.DataOffset:]" vbuf id.e.dataOffset
-    if content.take 4 = nvarSig ∧ 4 ≤ content.length then do
-      let ns ← nvarStoreT pol fuel content
-      pure (some (.mk id.e id.gidx id.cps ns, id.guids))
+    if attrs &&& 0x10 = 0 then do                     -- fix wp-nvfix: no nested store behind an extended header
+      let content ← sliceFromG "newNVar: v.buf[v.DataOffset:]" vbuf id.e.dataOffset
+      if content.take 4 = nvarSig ∧ 4 ≤ content.length then do
+        let ns ← nvarStoreT pol fuel content
+        pure (some (.mk id.e id.gidx id.cps ns, id.guids))
+      else pure (some (.mk id.e id.gidx id.cps none, id.guids))
     else pure (some (.mk id.e id.gidx id.cps none, id.guids))
 termination_by structural fuel _ _ _ => fuel
 
@@ -121,7 +124,9 @@ def nvarLoopT (pol : UInt8) : Nat → NvS → GoM (NvS × List NvNode)
         let eb ← sliceG "NewNVarStore: s.buf[s.FreeSpaceOffset:s.GUIDStoreOffset]" s.buf s.fso s.gso
         match ← newNvarT pol fuel eb s.fso s with
         | none => pure (s, [])
-        | some (n, guids) => do
+        | some (n, guids) =>
+          -- fix wp-nvfix: `if s.FreeSpaceOffset > s.GUIDStoreOffset { return nil, err }`
+          if s.fso + n.e.size > s.length - 16 * guids.length then err else do
           let (s', rest) ← nvarLoopT pol fuel { s with entries := s.entries ++ [n.e], guids := guids,
                                                        fso := s.fso + n.e.size,
                                                        gso := s.length - 16 * guids.length }
